@@ -115,7 +115,25 @@ def canon_of(depth, m):
 def mutate(rng, depth, m, k):
     """the application changes what it declares: a new table, a new column, a new database"""
     top = m if depth < 4 else m["def"]
-    kind = rng.choice(["table", "column", "db"] if depth >= 3 else ["table", "column"])
+    kind = rng.choice(["table", "column", "db", "reorder", "reorder", "retype"] if depth >= 3 else ["table", "column", "reorder", "reorder", "retype"])
+    if kind in ("reorder", "retype"):
+        # the table is declared again with the same column names: in another order (dropped and recreated, ALTER … FIRST /
+        # AFTER), or with another type for one column — as a new dict object, the way an application rebuilds its mapping
+        tgt = top if depth == 2 else top[rng.choice(list(top))] if top else None
+        cands = [t for t in (tgt or {}) if len(tgt[t]) >= (2 if kind == "reorder" else 1)]
+        if not cands:
+            kind = "table"
+        else:
+            t = rng.choice(cands)
+            items = list(tgt[t].items())
+            if kind == "reorder":
+                j = rng.randrange(1, len(items))
+                items = items[j:] + items[:j] if rng.random() < 0.5 else list(reversed(items))
+            else:
+                j = rng.randrange(len(items))
+                items[j] = (items[j][0], "BIGINT" if str(items[j][1]).upper() != "BIGINT" else "TEXT")
+            tgt[t] = dict(items)
+            return kind
     if kind == "db":
         top["newdb%d" % k] = {"nt%d" % k: {"nc": "INT"}}
     elif kind == "table":
@@ -243,7 +261,7 @@ async def one_schema(chk, rng, idx, lines, expect):
         return sorted(rows)
 
     for stepno in range(rng.randrange(6, 14)):
-        if stepno > 0 and rng.random() < 0.25:
+        if stepno > 0 and rng.random() < 0.35:
             kind = mutate(rng, depth, mapping, stepno)
             canon = canon_of(depth, mapping)
             cols = all_cols(canon)
@@ -446,6 +464,63 @@ async def empty_containers(chk):
     await a.finish()
 
 
+SHAPES = [
+    # (depth, mapping): containers without content in front of, between and behind the populated ones, at every level
+    (2, {"t1": {"a": "INT", "b": "TEXT"}, "t2": {"c": "DATE"}}),
+    (2, {"e0": {}, "t1": {"a": "INT", "b": "TEXT"}}),
+    (3, {"e0": {}, "db1": {"t1": {"a": "INT", "b": "TEXT"}}, "db2": {"t2": {"c": "DATE"}}}),
+    (3, {"db1": {"e0": {}, "t1": {"b": "TEXT", "a": "INT"}}, "e1": {}}),
+    (3, {"e0": {}, "e1": {}, "db1": {"e2": {}, "t1": {"a": "INT"}}}),
+    (4, {"def": {"db1": {"t1": {"a": "INT", "b": "TEXT"}}}}),
+    (4, {"staging": {"scratch": {}}, "def": {"shop": {"orders": {"id": "INT", "total": "DOUBLE"}}}}),
+    (4, {"staging": {"scratch": {}, "tmp": {}}, "def": {"e0": {}, "shop": {"e1": {}, "orders": {"total": "DOUBLE", "id": "INT"}}}}),
+    (4, {"def": {"shop": {"orders": {"id": "INT"}}}, "staging": {"scratch": {}}}),
+    (4, {"c0": {}, "def": {"shop": {"orders": {"id": "INT"}}}}),
+    (4, {"c1": {"d0": {"t0": {}}}, "def": {"shop": {"orders": {"id": "INT", "x": "TEXT"}}}}),
+]
+
+
+async def shape_corpus(chk):
+    """fixed mappings of every depth with declared-but-empty containers at every position: each declared table that has
+    columns is listed in its database with exactly its columns in order, and no name that is not a declared database
+    (or a built-in one) is listed as a database"""
+    for depth, m in SHAPES:
+        canon = canon_of(depth, m)
+        cols = all_cols(canon)
+        app = RecSession(schema=m)
+        srv = mkserver([app])
+        a = Peer(srv)
+        await a.login()
+        desc = dict(fixed_shape=True, depth=depth, mapping=m)
+        chk.case(("shape", repr(m)))
+        chk.count("shape:depth%d" % depth)
+        st, rows = await run(a, "SHOW DATABASES")
+        dbs = [r[0] for r in rows] if rows else []
+        declared = {c[1] for c in cols} | {d for _, ds in canon for d, _ in ds}
+        bogus = [d for d in dbs if d not in declared and d not in INFO_SCHEMA]
+        if bogus:
+            chk.fail("SHOW DATABASES lists a name that is not a declared database", desc, dict(databases=dbs, not_declared=bogus))
+        for cat, ds in canon:
+            for d, ts in ds:
+                for t, cs in ts:
+                    if not cs:
+                        continue
+                    if d:
+                        st2, rows2 = await run(a, "SHOW COLUMNS FROM %s FROM %s" % (q(t), q(d)))
+                    else:
+                        st2, rows2 = await run(a, "SHOW COLUMNS FROM %s" % q(t))
+                    got = [(r[0], r[1]) for r in rows2] if rows2 else st2
+                    want = [(n, ty) for n, ty in cs]
+                    if got != want:
+                        chk.fail("a declared table's columns are not listed exactly and in order", dict(desc, table="%s.%s" % (d, t)), dict(got=got, declared=want))
+                    if d:
+                        st3, rows3 = await run(a, "SHOW TABLES FROM %s" % q(d))
+                        ts_got = [r[0] for r in rows3] if rows3 else st3
+                        if t not in ts_got:
+                            chk.fail("a declared table is not listed in its database", dict(desc, table="%s.%s" % (d, t)), dict(tables=ts_got))
+        await a.finish()
+
+
 def like_cases(chk, rng, n):
     """Mimic.Like against like_to_regex (SHOW VARIABLES' matcher) and sqlglot's executor LIKE, directly"""
     from mysql_mimic.schema import like_to_regex
@@ -486,6 +561,7 @@ def main():
         out = drive(lines)
         evaluate(chk, out, expect)
         await empty_containers(chk)
+        await shape_corpus(chk)
     asyncio.run(go())
     like_cases(chk, rng, 6000 if chk.thorough else 800)
     chk.assumptions = [
